@@ -210,7 +210,8 @@ theorem tick_eq (s : Sys) (t : Time) :
       let sr := startReqs s.env t (s.apiQ.take nDeq) sb.2.2
       let ra := runAll t (threads1.map (fun th => match th.resume? t with | some th' => (th', true) | none => (th, false))
           ++ (sb.2.1 ++ sr.1).map (fun th => (th, true)))
-      ({ s with threads := ra.1, apiQ := s.apiQ.drop nDeq, cq := s.cq.drop s.env.cfg.completionBatchSize, bg := sb.1,
+      ({ s with threads := ra.1, apiQ := s.apiQ.drop nDeq, cq := s.cq.drop s.env.cfg.completionBatchSize,
+                bg := (if bgRefused s.env s.bgEnabled (s.apiDone && s.apiQ.isEmpty) threads1 t s.bg 0 then rotate1 sb.1 else sb.1),
                 pending := s.pending ++ ra.2.2.1, halted := ra.2.2.2 }, sr.2 ++ ra.2.1) := rfl
 
 theorem tick_count (tid : String) (s : Sys) (t : Time) (h : (s.tick t).1.halted = none) :
